@@ -162,6 +162,7 @@ void emit_result(int status, const char* cls, const char* site, const char* msg)
 void note_shared_write();
 void yield_hint();
 int64_t fault_short_sleep(int64_t ns);
+int pick_waiter(int n, int seq);  // recorded choice among n waiters (futex wake / cond signal)
 
 // memory model (mem.cc)
 void sb_drain(Thread* t);
